@@ -399,8 +399,111 @@ func c13WireFaultUnits(thorough bool) []*explore.Unit {
 	return units
 }
 
+// c13WireBlockedUnits (tier W): the regionserver has stopped reading (a hung process whose
+// kernel still holds the connection): a request's write blocks and the region client's
+// writer goroutine with it. Entries: a batch whose calls carry their own deadlines while the
+// batch context stays alive (the calls wait to be handed to the busy writer), a batch with a
+// deadline of its own, a batched get, and - unbatched - a get sent from the caller's own
+// goroutine, which then sits in net.Conn.Write itself.
+func c13WireBlockedUnits() []*explore.Unit {
+	var units []*explore.Unit
+	for _, entry := range []string{"batch-own-deadlines", "batch-deadline", "get-batched", "get-unbatched"} {
+		entry := entry
+		var returned bool
+		var deadlineAt, retAt time.Duration
+		var res []hrpc.RPCResult
+		var err error
+		u := &explore.Unit{Name: "wire|server stopped reading, writer blocked|" + entry, Bound: 1, Opt: vrt.Options{MaxSteps: 80000}}
+		u.Body = func() {
+			returned, res, err = false, nil, nil
+			cl := sim.NewCluster("rs0:1")
+			cl.AddTable("t", []string{"m"}, []string{"rs1:1"})
+			w := newWorldW(cl, gohbase.FlushInterval(time.Millisecond), gohbase.RpcQueueSize(2))
+			for _, key := range []string{"a", "x"} {
+				g, _ := hrpc.NewGetStr(context.Background(), "t", key)
+				if _, e := w.client.Get(g); e != nil {
+					panic("warm-up failed: " + e.Error())
+				}
+			}
+			var target *sim.Conn
+			for _, wc := range cl.WConns {
+				if wc.Addr == "rs1:1" && !wc.Conn.Closed {
+					target = wc.Conn
+				}
+			}
+			target.BlockWrites = true
+			// a first request occupies the writer: its write never completes
+			fctx, fcancel := vcontext.WithTimeout(context.Background(), time.Hour)
+			defer fcancel()
+			vrt.GoNamed("h:filler", func() {
+				g, _ := hrpc.NewGetStr(fctx, "t", "b")
+				w.client.Get(g)
+			})
+			vrt.Sleep(100 * time.Millisecond)
+			ctx, cancel := vcontext.WithTimeout(context.Background(), 300*time.Millisecond)
+			defer cancel()
+			deadlineAt = w.now() + 300*time.Millisecond
+			switch entry {
+			case "batch-own-deadlines":
+				a, _ := hrpc.NewGetStr(ctx, "t", "a")
+				x, _ := hrpc.NewGetStr(ctx, "t", "x")
+				res, _ = w.client.SendBatch(context.Background(), []hrpc.Call{a, x})
+			case "batch-deadline":
+				a, _ := hrpc.NewGetStr(ctx, "t", "a")
+				x, _ := hrpc.NewGetStr(ctx, "t", "x")
+				res, _ = w.client.SendBatch(ctx, []hrpc.Call{a, x})
+			case "get-batched":
+				g, _ := hrpc.NewGetStr(ctx, "t", "a")
+				_, err = w.client.Get(g)
+			case "get-unbatched":
+				g, _ := hrpc.NewGetStr(ctx, "t", "a", hrpc.SkipBatch())
+				_, err = w.client.Get(g)
+			}
+			returned = true
+			retAt = w.now()
+			target.BlockWrites = false
+			fcancel()
+			vrt.Sleep(time.Minute)
+			w.client.Close()
+			vrt.Sleep(10 * time.Minute)
+			for _, c := range cl.WConns {
+				c.Server.Stop = true
+			}
+		}
+		u.Check = func(r *vrt.Result) *explore.Finding {
+			where := "waiting for the busy writer of a region client"
+			if entry == "get-unbatched" {
+				where = "unbatched call in net.Conn.Write to a server that stopped reading"
+			}
+			if f := baseFinding(r); f != nil {
+				return f
+			}
+			if r.Deadlock || !returned {
+				return &explore.Finding{Class: "call-blocked-after-cancellation: " + where, Msg: fmt.Sprintf("%s: still blocked at quiescence (deadline at %v): %v", entry, deadlineAt, r.Blocked)}
+			}
+			if retAt > deadlineAt+time.Second {
+				return &explore.Finding{Class: "cancellation-honoured-late: " + where, Msg: fmt.Sprintf("%s returned %v after its deadline", entry, retAt-deadlineAt)}
+			}
+			for i, rr := range res {
+				if rr.Error == nil && rr.Msg == nil {
+					return &explore.Finding{Class: "cancelled-batch-leaves-empty-result", Msg: fmt.Sprintf("%s res[%d]", entry, i)}
+				}
+			}
+			if err != nil && !isCtxErr(err) {
+				return &explore.Finding{Class: "cancelled-call-returns-non-context-error", Msg: fmt.Sprintf("%s: %v (%T)", entry, err, err)}
+			}
+			if cb := clientBlocked(r); len(cb) > 0 {
+				return &explore.Finding{Class: "client-thread-left-blocked", Msg: fmt.Sprintf("%s: %v", entry, cb)}
+			}
+			return nil
+		}
+		units = append(units, u)
+	}
+	return units
+}
+
 func c13Units(thorough bool) []*explore.Unit {
-	units := c13WireFaultUnits(thorough)
+	units := append(c13WireFaultUnits(thorough), c13WireBlockedUnits()...)
 	states := []string{"zk-silent", "meta-silent", "probe-silent", "backoff", "server-silent", "reestablish", "lookup-backoff"}
 	entries := []string{"get", "put", "batch-shared", "batch-own", "scan"}
 	afters := []time.Duration{0, 20 * time.Millisecond, 3 * time.Second, 100 * time.Second}
@@ -478,8 +581,8 @@ func init() {
 	register(&Prop{
 		ID: "C13", Level: "model_checking",
 		Technique:   "stateless model checking with a freeze-the-world oracle: the client is brought into every wait state by script, the context ends at enumerated virtual instants (or under all schedules up to a deviation bound), and from that instant the environment answers nothing; the API call must return on client-internal steps alone",
-		Rule:        "wait states {ZooKeeper silent, meta silent, probe unanswered, retry back-off, server silent after the request, region being re-established with meta silent, lookup back-off} x entry points {get, put, batch with shared context, batch with one call's own context, scanner} x {cancel, deadline} x 4 instants (0, 20 ms, 3 s, 100 s of virtual time), schedules with <=1 (thorough 2) deviations; plus the region client's busy send queue (writer blocked in Write) on tier R. Oracle: the call returns, with a context error, no later than 1 s of virtual time after the context ended; a batch returns with only that call failed. Non-trivial = at least one non-default scheduling choice or a non-zero instant. Additionally the context is cancelled at EVERY scheduling step of a thread running client code during the call (first 120, thorough 250, steps), in each wait state and on a healthy cluster, x every entry point (vrt.GoInterrupt: the event's thread is created waiting for that step and is the default choice there, so its position is a parameter of the unit and costs no deviation), with <=1 further deviation.",
-		Assumptions: []string{"virtual clock: 'promptly' is measured in virtual time with the environment frozen", "an unbatched call blocked inside net.Conn.Write is outside the listed wait states (only the send queue is)"},
+		Rule:        "wait states {ZooKeeper silent, meta silent, probe unanswered, retry back-off, server silent after the request, region being re-established with meta silent, lookup back-off} x entry points {get, put, batch with shared context, batch with one call's own context, scanner} x {cancel, deadline} x 4 instants (0, 20 ms, 3 s, 100 s of virtual time), schedules with <=1 (thorough 2) deviations; plus the region client's busy send queue (writer blocked in Write) on tier R. Oracle: the call returns, with a context error, no later than 1 s of virtual time after the context ended; a batch returns with only that call failed. Non-trivial = at least one non-default scheduling choice or a non-zero instant. Additionally the context is cancelled at EVERY scheduling step of a thread running client code during the call (first 120, thorough 250, steps), in each wait state and on a healthy cluster, x every entry point (vrt.GoInterrupt: the event's thread is created waiting for that step and is the default choice there, so its position is a parameter of the unit and costs no deviation), with <=1 further deviation. Tier W: the k-th connection operation fails while two callers with their own contexts are sending directly (<=1 deviation, thorough 2), then cancel; a regionserver that stopped reading (writes blocked, the writer occupied) x {batch whose calls have their own deadlines, batch with a deadline, batched get, unbatched get}.",
+		Assumptions: []string{"virtual clock: 'promptly' is measured in virtual time with the environment frozen", "an unbatched call blocked inside net.Conn.Write is explored too and is an open known finding (no write deadline)"},
 		Quick:       150 * time.Second, Thorough: 45 * time.Minute,
 		Units: c13Units,
 	})
